@@ -10,6 +10,7 @@
 -/
 import Acra.Lemmas.Chapter7Enc
 import Acra.Lemmas.Chapter7Len
+import Acra.Lemmas.Chapter7Spec
 namespace Acra.Props.C10
 open Acra.Py Acra.Model.Chapter7 Acra.Lemmas.Chapter7 Acra.Gen.Chapter7
 open Acra.Spec.Ch7 (offset startsAux)
@@ -133,5 +134,17 @@ theorem fragmentation_large (b : Bytes) (llp : Bool) (h : 2048 < b.length) :
 
 example : (2048 : Nat) < (List.replicate 5000 (0 : UInt8)).length := by
   rw [List.length_replicate]; decide
+
+/-- frames = Spec: the frames the encapsulator has yielded, as `PTFR.pack` returns them, are exactly the Spec's frames -/
+theorem frames_eq_spec (pkts : List Bytes) (L sid : Nat) (hL : 0 < L) (hL2 : L ≤ 2047) (hs : sid < 16)
+    (cur : PTFR.State) (out : List PTFR.State) (h : datapktsToPtfr (normal pkts) L sid = .ok (cur, out)) :
+    out.map (fun f => (PTFR.pack f).2) = (Spec.Ch7.frames L sid pkts).map .ok := by
+  obtain ⟨cur', out', h', inv⟩ := encap_invariant pkts L sid hL
+  rw [h] at h'; injection h' with h'; injection h' with h1 h2; subst h1 h2
+  have hlen : out.length = ((stream pkts).length - 1) / L := (payload_stream pkts L sid hL cur out h).2.2.2
+  have hout := inv.out_eq
+  rw [hlen] at hout
+  rw [hout, List.map_map]
+  exact frames_wire_spec pkts L sid hL2 hs
 
 end Acra.Props.C10
